@@ -105,7 +105,8 @@ def check_program(item):
     first = True
     for lv in levels:
         argv = argv0 + lv
-        acc = loader.compile_source(src, argv, codegen=want_c and first)
+        do_c = want_c and (first or item.get("c_all_levels"))
+        acc = loader.compile_source(src, argv, codegen=do_c)
         if acc.kind != "accepted":
             if first:
                 res["status"] = acc.kind
@@ -122,7 +123,7 @@ def check_program(item):
             return res
         reps = U.reps_of(stmts)
         ref = Ref(stmts, reps, with_end=am.eof)
-        o = refcheck.explore(am, ref, reps, with_end=am.eof, max_states=cap, want_witnesses=16 if (want_c and first) else 0)
+        o = refcheck.explore(am, ref, reps, with_end=am.eof, max_states=cap, want_witnesses=16 if do_c else 0)
         res["states"] += o.states
         res["trans"] += o.trans
         res["shapes"] |= o.shapes
@@ -134,7 +135,7 @@ def check_program(item):
             res["capped"] += 1
         if o.problem:
             res["problems"].append(dict(kind="mismatch", what=o.problem, path=(o.path or b"").hex(), argv=argv))
-        elif want_c and first and o.witnesses:
+        elif do_c and o.witnesses:
             try:
                 with cbuild.CProg(acc, "gcc0") as cp:
                     for w in o.witnesses:
@@ -163,7 +164,7 @@ def items_for(tier, seed):
         cmod = 11
         cap = 6000
     for j, p in enumerate(U.handwritten()):
-        items.append(dict(ast=tuple(p), label="HW#%d" % j, want_c=True, cap=cap, levels=[[], ["-O0"], ["-O3"]]))
+        items.append(dict(ast=tuple(p), label="HW#%d" % j, want_c=True, cap=cap, levels=[[], ["-O0"], ["-O3"]], c_all_levels=True))
     for i, p in gen:
         lv = lvls if tier != "quick" else ([[], ["-O3"]] if i % 4 == seed % 4 else ([[], ["-O0"]] if i % 4 == (seed + 1) % 4 else [[]]))
         items.append(dict(ast=p, label="U#%d" % i, want_c=(i % cmod == seed % cmod), cap=cap, levels=lv))
